@@ -10,6 +10,7 @@ import SoyVerif.Ops.Parser
 import SoyVerif.Ops.Check
 import SoyVerif.Ops.Writer
 import SoyVerif.Ops.Escape
+import SoyVerif.Ops.Value
 
 open SoyVerif SoyVerif.Ops
 
@@ -19,7 +20,8 @@ def allOps : List Op :=
   Ops.Parser.ops ++
   Ops.Check.ops ++
   Ops.Writer.ops ++
-  Ops.Escape.ops
+  Ops.Escape.ops ++
+  Ops.Value.ops
 
 def handle (op : String) (f : List String) : String :=
   match allOps.find? (·.1 == op) with
